@@ -4,6 +4,13 @@ records which violation keys caught it in meta.json and prints a table.  usage: 
 import json, os, subprocess, sys, glob, re
 HERE = os.path.dirname(os.path.dirname(os.path.abspath(__file__)))
 sel = sys.argv[1:]
+if sel and sel[0] == "--table": # markdown table from the recorded results, nothing is run
+    print("| seeded change | property | needs to manifest | caught by (quick tier; violation keys) |\n|---|---|---|---|")
+    for d in sorted(glob.glob(os.path.join(HERE, "seeded", "*", "meta.json"))):
+        m = json.load(open(d)); cb = m.get("caught_by") or {}
+        txt = "; ".join("%s: %s" % (p, ", ".join("`%s`" % k for k in v["keys"][:2]) if v["keys"] else "not caught") for p, v in cb.items()) or "(not run yet)"
+        print("| %s | %s | %s | %s |" % (m["id"], m["property"], m["needs_to_manifest"].replace("|", "/"), txt))
+    sys.exit(0)
 rows = []
 dirty = subprocess.run(["git", "-C", "/repo", "status", "--porcelain", "--untracked-files=no"], stdout=subprocess.PIPE, text=True).stdout.strip()
 if dirty: sys.exit("refusing: /repo has uncommitted changes to tracked files")
